@@ -3,7 +3,6 @@
 use crate::handles::{self, in_task, wait_task, Res, H, It};
 use crate::payload::{self, P};
 use crate::rt::{self, rt, AbortRun, OpRec, Status, K};
-use multiqueue2::verif_hooks::OpKind;
 use serde_json::{json, Value};
 use std::collections::HashMap;
 use std::panic::{catch_unwind, resume_unwind, AssertUnwindSafe};
@@ -98,6 +97,14 @@ fn log_ret(r: &str, v: i64, same: bool) {
     st.api.push(json!({"e":"ret","t":t,"r":r,"v":v,"same":same,"nops":n}));
 }
 
+fn set_retrying(on: bool) {
+    let t = tid();
+    let mut st = rt().lock();
+    if t < st.th.len() {
+        st.th[t].retrying = on;
+    }
+}
+
 fn set_waiting(what: &str, h: &str) {
     let t = tid();
     let mut st = rt().lock();
@@ -157,6 +164,7 @@ fn exec_op(op: &Value, fut_default: bool) -> bool {
     let newn = sget(op, "new");
     let task = tid();
     let mut ok = true;
+    set_retrying(false);
     match name {
         "send" | "start_send" | "fsend" => {
             let v = op["v"].as_u64().unwrap_or(0);
@@ -184,7 +192,10 @@ fn exec_op(op: &Value, fut_default: bool) -> bool {
                         clear_waiting();
                         continue;
                     }
-                    Res::Full(_, _) if op["retry"].as_bool().unwrap_or(false) => continue,
+                    Res::Full(_, _) if op["retry"].as_bool().unwrap_or(false) => {
+                        set_retrying(true);
+                        continue;
+                    }
                     Res::Err => ok = false,
                     _ => {}
                 }
@@ -223,11 +234,73 @@ fn exec_op(op: &Value, fut_default: bool) -> bool {
                         clear_waiting();
                         continue;
                     }
-                    Res::Empty if op["retry"].as_bool().unwrap_or(false) => continue,
+                    Res::Empty if op["retry"].as_bool().unwrap_or(false) => {
+                        set_retrying(true);
+                        continue;
+                    }
                     Res::Err => ok = false,
                     _ => {}
                 }
                 break;
+            }
+        }
+        "brecv_all" | "bview_all" | "frecv_all" => {
+            // receive (blocking) until the end of the stream
+            loop {
+                let mut h = match tbl_take(hn) {
+                    Some(h) => h,
+                    None => return false,
+                };
+                let hk = h.kind();
+                let r = match name {
+                    "brecv_all" => prim("brecv", "recv", hn, hk, -1, "", || h.recv()),
+                    "bview_all" => prim("brecv", "recv_view", hn, hk, -1, "", || h.view()),
+                    _ => {
+                        rt().clear_task(task);
+                        prim("recv", "poll", hn, hk, -1, "", || in_task(task, || h.poll()))
+                    }
+                };
+                tbl_put(hn, h);
+                match r {
+                    Res::Val(_) => continue,
+                    Res::Empty if name == "frecv_all" => {
+                        set_waiting("recv", hn);
+                        wait_task(task);
+                        clear_waiting();
+                        continue;
+                    }
+                    _ => break,
+                }
+            }
+        }
+        "recv_all" | "view_all" | "poll_all" => {
+            // non-blocking receive, repeated until the end of the stream is reported
+            loop {
+                let mut h = match tbl_take(hn) {
+                    Some(h) => h,
+                    None => return false,
+                };
+                let hk = h.kind();
+                let r = match name {
+                    "recv_all" => prim("recv", "try_recv", hn, hk, -1, "", || h.try_recv()),
+                    "view_all" => prim("recv", "try_recv_view", hn, hk, -1, "", || h.try_view()),
+                    _ => {
+                        rt().clear_task(task);
+                        prim("recv", "poll", hn, hk, -1, "", || in_task(task, || h.poll()))
+                    }
+                };
+                tbl_put(hn, h);
+                match r {
+                    Res::Val(_) => {
+                        set_retrying(false);
+                        continue;
+                    }
+                    Res::Empty => {
+                        set_retrying(true);
+                        continue;
+                    }
+                    _ => break,
+                }
             }
         }
         "drain" => {
@@ -393,6 +466,18 @@ static LAYOUT: Mutex<Vec<(usize, String)>> = Mutex::new(Vec::new());
 
 fn register_layout(hname: &str, h: &H) {
     let mut l = LAYOUT.lock().unwrap_or_else(|p| p.into_inner());
+    {
+        let mut st = rt().lock();
+        for loc in h.layout() {
+            match loc.name {
+                "mm_lock" | "wtf_lock" | "mm_epoch" | "token" => {
+                    st.mm_addrs.insert(loc.addr);
+                }
+                "signal" => st.signal_addr = loc.addr,
+                _ => {}
+            }
+        }
+    }
     for loc in h.layout() {
         let nm = match loc.name {
             "tag" | "refcnt" => format!("{}[{}]", loc.name, loc.index),
@@ -409,44 +494,7 @@ pub fn layout_snapshot() -> HashMap<usize, String> {
     LAYOUT.lock().unwrap_or_else(|p| p.into_inner()).iter().cloned().collect()
 }
 
-#[derive(Clone, Debug)]
-pub struct StepInfo {
-    pub chosen: usize,
-    pub enabled: Vec<usize>,
-    /// thread that ran the previous step, if it could have continued without a free switch
-    pub cont: Option<usize>,
-}
-
-pub struct View<'a> {
-    pub step: usize,
-    pub enabled: &'a [usize],
-    pub cont: Option<usize>,
-    pub last: Option<usize>,
-    pub nthreads: usize,
-}
-
-pub trait Source {
-    fn pick(&mut self, v: &View) -> usize;
-}
-
-/// Default continuation policy: keep running the same thread, otherwise round-robin
-pub fn default_pick(v: &View) -> usize {
-    if let Some(c) = v.cont {
-        return c;
-    }
-    match v.last {
-        None => v.enabled[0],
-        Some(l) => *v.enabled.iter().find(|&&t| t > l).unwrap_or(&v.enabled[0]),
-    }
-}
-
-#[derive(Debug, Clone, PartialEq)]
-pub enum Outcome {
-    Done,
-    Deadlock,
-    Livelock,
-    StepLimit,
-}
+pub use crate::rt::{default_pick, Outcome, Source, StepInfo, View};
 
 pub struct RunResult {
     pub api: Vec<Value>,
@@ -456,11 +504,30 @@ pub struct RunResult {
     pub layout: HashMap<usize, String>,
 }
 
-const SPIN_FREE: usize = 6;
-
 /// Runs the whole scenario once under `source`.
-pub fn run(scn: &Scenario, source: &mut dyn Source, record_ops: bool, quarantine: bool) -> RunResult {
+pub fn run(
+    scn: &Scenario,
+    source: Box<dyn Source>,
+    record_ops: bool,
+    quarantine: bool,
+) -> (RunResult, Option<Box<dyn Source>>) {
+    run_opt(scn, source, record_ops, quarantine, false)
+}
+
+pub fn run_opt(
+    scn: &Scenario,
+    source: Box<dyn Source>,
+    record_ops: bool,
+    quarantine: bool,
+    transparent_mm: bool,
+) -> (RunResult, Option<Box<dyn Source>>) {
     let r = rt();
+    {
+        let mut st = r.lock();
+        st.mm_addrs.clear();
+        st.signal_addr = 0;
+        st.transparent_mm = transparent_mm;
+    }
     payload::reset_serials();
     *TBL.lock().unwrap_or_else(|p| p.into_inner()) = Some(HashMap::new());
     *ITERS.lock().unwrap_or_else(|p| p.into_inner()) = Some(HashMap::new());
@@ -469,6 +536,7 @@ pub fn run(scn: &Scenario, source: &mut dyn Source, record_ops: bool, quarantine
     let mut ops_all: Vec<OpRec> = Vec::new();
     let mut steps: Vec<StepInfo> = Vec::new();
     let mut outcome = Outcome::Done;
+    let mut source = Some(source);
     rt::enter(None);
     let allocs_before = r.lock().allocs.len();
     api_all.push(json!({"e":"reset","scn":scn.name,"fl":scn.flavour,"fut":scn.fut,"cap":scn.cap,"wait":scn.wait}));
@@ -479,10 +547,16 @@ pub fn run(scn: &Scenario, source: &mut dyn Source, record_ops: bool, quarantine
         tbl_put("tx", tx);
         tbl_put("rx", rx);
     }
-    let mut last: Option<usize> = None;
     for (pi, phase) in scn.phases.iter().enumerate() {
         let n = phase.len();
-        r.begin_run(n + 1, record_ops, quarantine);
+        let src = source.take().unwrap_or_else(|| Box::new(crate::explore::Prefix { prefix: vec![] }));
+        r.begin_run(n + 1, record_ops, quarantine, src, steps.len(), scn.livelock, scn.max_steps);
+        {
+            // thread 0 does not exist in phases
+            let mut st = r.lock();
+            st.th[0].status = Status::Finished;
+            st.phase = pi;
+        }
         let mut joins = Vec::new();
         for (ti, prog) in phase.iter().enumerate() {
             let prog = prog.clone();
@@ -506,93 +580,16 @@ pub fn run(scn: &Scenario, source: &mut dyn Source, record_ops: bool, quarantine
                 rt::leave();
             }));
         }
-        // thread 0 does not exist in phases; mark finished
-        {
-            let mut st = r.lock();
-            st.th[0].status = Status::Finished;
-        }
-        // controller loop
-        let mut phase_outcome = Outcome::Done;
-        loop {
-            let mut st = r.lock();
-            loop {
-                let busy = st
-                    .th
-                    .iter()
-                    .any(|th| th.status == Status::Running || th.status == Status::NotStarted);
-                if !busy {
-                    break;
-                }
-                st = match r.ctl.wait(st) {
-                    Ok(g) => g,
-                    Err(p) => p.into_inner(),
-                };
-            }
-            if st.th.iter().all(|th| th.status == Status::Finished) {
-                break;
-            }
-            let enabled: Vec<usize> = (0..st.th.len()).filter(|&t| st.enabled(t)).collect();
-            if enabled.is_empty() {
-                phase_outcome = Outcome::Deadlock;
-            } else if st.since_progress > scn.livelock {
-                phase_outcome = Outcome::Livelock;
-            } else if st.step >= scn.max_steps {
-                phase_outcome = Outcome::StepLimit;
-            }
-            if phase_outcome != Outcome::Done {
-                let stuck: Vec<Value> = st
-                    .th
-                    .iter()
-                    .enumerate()
-                    .filter(|(_, th)| th.status != Status::Finished)
-                    .map(|(t, th)| {
-                        let mut v = th.in_call.clone().unwrap_or(json!({"t":t,"op":"none","api":"none","h":""}));
-                        v["pend"] = json!(th.pend.map(|p| p.kind.name()).unwrap_or("none"));
-                        v["enabled"] = json!(enabled.contains(&t));
-                        v
-                    })
-                    .collect();
-                let why = format!("{:?}", phase_outcome);
-                st.api.push(json!({"e":"stuck","why":why,"ts":stuck}));
-                drop(st);
-                break;
-            }
-            // may the previous thread continue (no free switch)?
-            let cont = match last {
-                Some(l) if enabled.contains(&l) => {
-                    let th = &st.th[l];
-                    let free = th.ro_streak >= SPIN_FREE
-                        || matches!(
-                            th.pend.map(|p| p.kind),
-                            Some(K::Shim(OpKind::Yield)) | Some(K::Shim(OpKind::Sleep))
-                        );
-                    if free {
-                        None
-                    } else {
-                        Some(l)
-                    }
-                }
-                _ => None,
-            };
-            let view = View { step: steps.len(), enabled: &enabled, cont, last, nthreads: st.th.len() };
-            let mut c = source.pick(&view);
-            if !enabled.contains(&c) {
-                c = default_pick(&view);
-            }
-            steps.push(StepInfo { chosen: c, enabled: enabled.clone(), cont });
-            st.step += 1;
-            st.granted = Some(c);
-            st.th[c].status = Status::Running;
-            last = Some(c);
-            r.cvs[c].notify_all();
-            drop(st);
-        }
+        let phase_outcome = r.drive();
         if phase_outcome != Outcome::Done {
             r.abort_run();
         }
         for j in joins {
             let _ = j.join();
         }
+        let (src, mut st_steps) = r.take_source();
+        source = src;
+        steps.append(&mut st_steps);
         let (mut api, mut ops) = r.end_run();
         api_all.append(&mut api);
         ops_all.append(&mut ops);
@@ -601,7 +598,6 @@ pub fn run(scn: &Scenario, source: &mut dyn Source, record_ops: bool, quarantine
             break;
         }
         api_all.push(json!({"e":"quiesce","phase":pi}));
-        last = None;
     }
     // whatever is left is dropped by the main thread, unscheduled, with the ledger still recording
     let layout = layout_snapshot();
@@ -636,5 +632,5 @@ pub fn run(scn: &Scenario, source: &mut dyn Source, record_ops: bool, quarantine
                             "outcome":format!("{:?}", outcome)}));
     }
     rt::leave();
-    RunResult { api: api_all, ops: ops_all, steps, outcome, layout }
+    (RunResult { api: api_all, ops: ops_all, steps, outcome, layout }, source)
 }
